@@ -33,4 +33,9 @@ for kind in ("miri-sb", "miri-tb"):
         mod.ensure_lock(os.path.join(ROOT, "harness"))
         subprocess.run(["cargo", "+nightly", "miri", "setup"], cwd=os.path.join(ROOT, "harness"), env=env)
         break
+if "miri32" in need:
+    # the i686 sysroot of the 32-bit interpreter stages (built offline from rust-src)
+    import subprocess
+    env = mod.base_env()
+    subprocess.run(["cargo", "+nightly", "miri", "setup", "--target", "i686-unknown-linux-gnu"], cwd=os.path.join(ROOT, "harness"), env=env)
 sys.exit(0)
